@@ -178,7 +178,7 @@ class Session:
     def forgive_cleanup_fault(self):
         """A fault that hit the removal of a temporary directory itself legitimately leaves it behind:
         the residue check is not applied to it (the harness removes it)."""
-        hit = [l for l in self.shim.log if l[2].startswith("tmp") and l[1] in ("rmdir", "unlink")
+        hit = [l for l in self.shim.log if l[2].startswith("tmp") and l[1] in ("rmdir", "unlink", "rmtree")
                and any(f[0] == l[0] and f[1] == l[1] for f in self.fired_last)]
         if hit:
             t = os.path.join(self.dir, "tmp")
@@ -331,7 +331,7 @@ def run_c14(ctx):
         is_zip = cfg["zip_first"]
         nm_guess = 160 if is_zip else 20
         if cfg["enumerate"]:
-            for _ in range(rng.choice([1, 1, 2, 4])):
+            for _ in range(rng.choice([1, 2, 4, 5])):
                 plan_steps.append({"op": "save", "zip": is_zip, "plan": None})
                 plan_steps.append({"op": "edit"})
             nk = 2 if (ctx.tier == "thorough" or not is_zip) else 1
@@ -344,6 +344,11 @@ def run_c14(ctx):
                 if i > 0 and rng.random() < 0.6:
                     kind, en = rng.choice(KINDS)
                     plan = {"at": rng.randrange(0, 160 if is_zip else 20), "kind": kind, "errno": en}
+                    q = rng.random()
+                    if q < 0.5:
+                        # a position relative to the length of the last complete save of this format (resolved at run time),
+                        # so that the tail of a save - removal of the set-aside copy, final renames - is reached as well
+                        plan = {"at_frac": round(rng.uniform(0.0, 1.05) if q < 0.35 else rng.uniform(0.8, 1.05), 3), "kind": kind, "errno": en}
                     if rng.random() < 0.1:
                         plan = {"at": rng.randrange(0, 40), "kind": "transient", "n": rng.choice([1, 2, 3])}
                     if cfg.get("bomb") and rng.random() < 0.35:
@@ -404,6 +409,11 @@ def run_c14_steps(ctx, ses, plan_steps):
         gens = [c[1] for c in copies if c and c[0] == "gen"]
         slots = [(c[1] if c and c[0] == "gen" else (None if c is None else "unloadable")) for c in copies]
         hit_rollback = len(getattr(ses, "save_fired", [])) > 1
+        sb = state.get("slots_before")
+        if sb is not None and any(sb[i] is None and any(x is not None for x in sb[i + 1:]) for i in range(len(sb))):
+            # an earlier doubly-faulted save left a free slot between generations: a later rotation or restore may
+            # legitimately close it (same generations, same order)
+            hit_rollback = True
         if failed and state.get("slots_before") is not None and hit_rollback:
             # the fault fired again after the save had already failed (a transient error that outlasts the first
             # failure also hits the moving-back): the statement only demands that nothing is lost and order is kept
@@ -414,7 +424,7 @@ def run_c14_steps(ctx, ses, plan_steps):
             # a failed save leaves no residue: the same generations in the same slots as before the attempt
             raise Violation("C14/failed-save-changed-the-kept-generations/" + what, {"before": state["slots_before"], "after": slots})
         stray = sorted(n for n in os.listdir(ses.dir) if n.startswith("model") and n not in ("model", "model_BAK1", "model_BAK2", "model_BAK3"))
-        if stray and not (stray == ["model_BAK_OLD"] and any(f[1] in ("unlink", "rmdir") for f in getattr(ses, "save_fired", []))):
+        if stray and not (stray == ["model_BAK_OLD"] and any(f[1] in ("unlink", "rmdir", "rmtree") for f in getattr(ses, "save_fired", []))):
             # (a fault that hits the removal of the set-aside oldest copy legitimately leaves it until the next save)
             raise Violation("C14/stray-files-next-to-the-model/" + what, {"stray": stray})
         state["slots_now"] = slots
@@ -448,13 +458,19 @@ def run_c14_steps(ctx, ses, plan_steps):
             d = desc_of(m)
             models0 = sorted(mx.get_models())
             state["slots_before"] = state.get("slots_now")
-            err = ses.save(m, state["path"], is_zip, plan=st.get("plan"))
+            plan = st.get("plan")
+            if plan and "at_frac" in plan:
+                nref = state.setdefault("nmut_ok", {}).get(bool(is_zip)) or (160 if is_zip else 20)
+                plan = dict(plan, at=int(plan["at_frac"] * nref))
+            err = ses.save(m, state["path"], is_zip, plan=plan)
+            if err is None and not ses.fired_last:
+                state.setdefault("nmut_ok", {})[bool(is_zip)] = ses.nmut_last
             fired = ses.fired_last
             for f in fired:
                 ctx.count(f[2] + ":" + f[1], 1, "faults_fired")
             if st.get("plan") and not fired:
                 ctx.count("armed_not_reached", 1, "faults")
-            ses.ev("save gen=%d zip=%s plan=%s -> %s fired=%s" % (state["gen"], is_zip, st.get("plan"), type(err).__name__ if err else "ok", fired))
+            ses.ev("save gen=%d zip=%s plan=%s -> %s fired=%s" % (state["gen"], is_zip, plan, type(err).__name__ if err else "ok", fired))
             if err is None:
                 state["good"].insert(0, (state["gen"], d))
                 if fired and st["plan"]["kind"] == "transient":
@@ -623,6 +639,19 @@ def enumerate_save(ctx, ses, state, st, mark, check_after):
                         v.detail.update({"k": k, "kind": kind, "fired": fired, "error": repr(err)[:200], "calls": []})
                     raise
                 ctx.count("enumerated_points", 1, "reach")
+                if fired and (err is None or k % 3 == 0):
+                    # later saves behave normally: one more, fault-free, save to the same path from the state the fault left
+                    mark(m)
+                    d2 = desc_of(m)
+                    state["slots_before"] = state.get("slots_now")
+                    err2 = ses.save(m, state["path"], is_zip)
+                    ses.ev("enum k=%d follow-up save -> %s" % (k, type(err2).__name__ if err2 else "ok"))
+                    if err2 is not None:
+                        raise Violation("C14/later-save-fails-after-a-fault/%s" % type(err2).__name__,
+                                        {"k": k, "kind": kind, "first": repr(err)[:200], "error": repr(err2)[:300]})
+                    state["good"].insert(0, (state["gen"], d2))
+                    check_after("save-ok-after-fault", False)
+                    ctx.count("follow_up_saves", 1, "reach")
         ctx.stats["exhaustive_saves"] = ctx.stats.get("exhaustive_saves", 0) + 1
     finally:
         shutil.rmtree(snap, ignore_errors=True)
